@@ -341,6 +341,33 @@ class Facts:
                 txt = alias.apply(txt, fn_al)
                 self.raw = json.loads(txt)
                 self.aliases.update(fn_al)
+            # helpers that did not exist in the reference tree are analysed inlined into their callers (inline.py)
+            ref_names = {k for k in alias.ref_table() if not k.startswith('__')}
+            if ref_names:
+                import inline
+                callers_before = {}
+                for b in self.raw['bodies']:
+                    for _bl, _t, c in inline._calls(b):
+                        callers_before.setdefault(inline._plain(c), set()).add(b['name'])
+                inl = inline.inline_new_helpers(self.raw, ref_names)
+                if inl:
+                    txt = json.dumps(self.raw)
+                    for h in inl:
+                        cs = callers_before.get(inline._plain(h), set())
+                        self.aliases['inlined ' + h] = 'into ' + ', '.join(sorted(cs))
+                        if len(cs) == 1:
+                            # closures of a helper with a single caller become closures of that caller
+                            c0 = next(iter(cs))
+                            k0 = 100 + 10 * len(self.aliases)
+                            txt = re.sub(re.escape(h) + r'::\{closure#(\d+)\}', lambda m: '%s::{closure#%d}' % (c0, k0 + int(m.group(1))), txt)
+                    self.raw = json.loads(txt)
+        if crate == 'build_script_build':
+            import alias, inline
+            bnames = set(alias.ref_table().get('__build__', []))
+            if bnames:
+                inl = inline.inline_new_helpers(self.raw, bnames)
+                for h in inl:
+                    self.aliases['inlined ' + h] = 'into its callers'
         self.crate = crate
         self.out_dir = self.raw.get('out_dir', '')
         self.fns = {}
@@ -402,6 +429,9 @@ class Facts:
                 if rv['r'] == 'agg':
                     k = rv['kind']
                     if k['a'] == 'adt':
+                        # Some(<integer literal>) carries its payload along
+                        if str(k.get('variant')) in ('Some', '1') and str(k.get('adt', '')).endswith('Option') and len(rv['ops']) == 1 and rv['ops'][0].get('k') == 'const' and 'int' in rv['ops'][0]:
+                            return ('some-int', int(rv['ops'][0]['int']))
                         return ('variant', k['adt'], k['variant'])
                     if k['a'] == 'array':
                         return ('array', [int(o['int']) if 'int' in o else None for o in rv['ops']])
@@ -448,11 +478,17 @@ class Facts:
         public = rf is not None and (rf.vis == 'Public' or rf.trait is not None)
         for caller in self.real_fns():
             cgens = set(caller.d.get('generics', []))
+            sites = []
             for _, t in caller.calls():
                 c = t['callee']
-                if c.get('def') != root and c.get('resolved') != root:
-                    continue
-                targs = [strip_lt(x) for x in c.get('gargs', []) if not x.startswith("'")]
+                if c.get('def') == root or c.get('resolved') == root:
+                    sites.append(c.get('gargs', []))
+                # the function handed over as a value (`.map_err(helper)`): its type arguments are fixed there
+                for a in t['args']:
+                    if a.get('k') == 'const' and a.get('fn_def') == root:
+                        sites.append(a.get('fn_gargs') or [])
+            for gargs_ in sites:
+                targs = [strip_lt(x) for x in gargs_ if not x.startswith("'")]
                 if len(targs) != len(gens):
                     for g in gens:
                         res[g] = None
@@ -532,8 +568,15 @@ class Facts:
         for trn, selfty, it, targ in tramp:
             st = None if is_param(selfty) else selfty.lstrip('&').replace('mut ', '')
             ta = None if (targ is None or is_param(targ)) else targ
-            for h in self.find_impls(trn, st, it, ta):
-                out.add(h.name)
+            sts = [st]
+            bare = selfty.lstrip('&').replace('mut ', '')
+            if st is None and bare in gens:
+                inst = self.instantiations(fn).get(bare)
+                if inst:       # every instantiation of this type parameter inside the crate is known
+                    sts = sorted(x.lstrip('&').replace('mut ', '') for x in inst)
+            for st_ in sts:
+                for h in self.find_impls(trn, st_, it, ta):
+                    out.add(h.name)
         # same-trait: required or default method on a local Self type / on a type parameter
         if tr and g:
             selfty = g[0]
